@@ -82,6 +82,12 @@ def make_reps(gspec):
         gi = hcipy.CartesianGrid(hcipy.RegularCoords(np.array([dz, dz], float), np.array([n, n], int), np.array([dz, dz], float)))
         sx, sy = [np.array(c, float) for c in gi.separated_coords]
         sep = (sx, sy)
+    elif kind == 'pts':
+        # an explicit unstructured point set (no separated form)
+        a, b = np.array(gspec[1], float), np.array(gspec[2], float)
+        reps['unstructured'] = hcipy.CartesianGrid(hcipy.UnstructuredCoords((a.copy(), b.copy())))
+        reps['polar'] = reps['unstructured'].as_('polar')
+        return reps, a.copy(), b.copy(), None
     elif kind == 'polarsep':
         rs, ths = np.array(gspec[1], float), np.array(gspec[2], float)
         pg = hcipy.PolarGrid(hcipy.SeparatedCoords([rs, ths]))
@@ -203,6 +209,8 @@ def grid_features(gspec, sep):
         return 'mixed'
     if gspec[0] == 'alias-pts':
         return ['alias-pts:diagonal']
+    if gspec[0] == 'pts':
+        return ['pts:explicit']
     if gspec[0] == 'polarsep':
         return ['polar:r0=0' if gspec[1][0] == 0 else 'polar:r0>0', 'polar:theta-' + direction(np.array(gspec[2]))]
     kind = gspec[0] + ('(' + gspec[4] + ')' if len(gspec) > 4 else '')
@@ -882,8 +890,10 @@ def run_generic(ctx, gspec, sspec, over=None, want_model=True, corner=None, hist
                     if near[i]:
                         ctx.boundary_skipped += 1
                         ctx.count('model-boundary-skipped')
+                        ctx.count('skipped-by-maker:' + label)
                         continue
                     ctx.count('points-compared')
+                    ctx.count('compared-by-maker:' + label)
                     if abs(mv[i] - rv[i]) > 1e-9:
                         ctx.disagree('C12 ' + mode, {'case': case, 'rep': name, 'index': i, 'point': [float(xs[i]), float(ys[i])],
                                                      'model': mv[i], 'impl': float(rv[i])}, key='%s:model:%s' % (label, name))
@@ -1533,6 +1543,512 @@ def run_recipe(ctx, name, kw, gseed, fam, feat=None):
 
 
 # ---------------------------------------------------------------------------------------------
+# round 5: the hexagonally segmented pupils inside the model (LUVOIR A/B, ELT, TMT, HiCAT): the lattice, WHICH segments are
+# dropped (Grid.subset criteria evaluated by the model's own aperture code), obscuration, spiders, flags, returned segments
+
+HEXMODEL_PUPILS = ('make_luvoir_a_aperture', 'make_luvoir_b_aperture', 'make_elt_aperture', 'make_tmt_aperture', 'make_hicat_aperture')
+
+
+def _hexagon_toks(circum, angle):
+    return build(['regpoly', 6, float(circum), float(angle), None])[1]
+
+
+def hexpupil_cfg(name, kw):
+    """the constants of the maker, computed with its own NumPy expressions -> dict(rings, pitch, sels, segment, obs, spiders,
+    hw, loop, D, widths) resp. the HiCAT dict"""
+    normalized = kw.get('normalized', False)
+    with_spiders = kw.get('with_spiders', True)
+    gaps = kw.get('with_segment_gaps', True)
+    pad = kw.get('gap_padding', 1)
+    if name == 'make_luvoir_a_aperture':
+        pupil_diameter = 15.0
+        actual_flat = 1.2225
+        actual_gap = 0.006
+        spider_width = 0.150
+        spid_start = 0.30657
+        lower = 12.7
+        segment_gap = actual_gap * pad
+        if not gaps:
+            segment_gap = 0
+        flat = actual_flat - (segment_gap - actual_gap)
+        circum = 2 / np.sqrt(3) * flat
+        if normalized:
+            circum /= pupil_diameter
+            actual_flat /= pupil_diameter
+            actual_gap /= pupil_diameter
+            spider_width /= pupil_diameter
+            spid_start /= pupil_diameter
+            pupil_diameter = 1.0
+        sp = [([0, 0], 90), ([spid_start, 0], 270 - lower), ([-spid_start, 0], 270 + lower)] if with_spiders else []
+        return dict(rings=6, pitch=actual_flat + actual_gap,
+                    sels=[['nonzero', 'disk', rat(pupil_diameter * 0.98 / 2)], ['notpos', 'disk', rat(circum / 2)]],
+                    segment=_hexagon_toks(circum, np.pi / 2), obs=None, spiders=sp, hw=spider_width / 2, loop=False, D=pupil_diameter,
+                    gap=actual_flat + actual_gap - flat, segsize=circum)
+    if name == 'make_luvoir_b_aperture':
+        pupil_diameter = 8.0
+        actual_flat = 0.955
+        actual_gap = 0.006
+        segment_gap = actual_gap * pad
+        if not gaps:
+            segment_gap = 0
+        flat = actual_flat - (segment_gap - actual_gap)
+        circum = 2 / np.sqrt(3) * flat
+        if normalized:
+            circum /= pupil_diameter
+            actual_flat /= pupil_diameter
+            actual_gap /= pupil_diameter
+            pupil_diameter = 1.0
+        return dict(rings=4, pitch=actual_flat + actual_gap, sels=[['nonzero', 'disk', rat(pupil_diameter * 0.9 / 2)]],
+                    segment=_hexagon_toks(circum, np.pi / 2), obs=None, spiders=[], hw=0.0, loop=False, D=pupil_diameter,
+                    gap=actual_flat + actual_gap - flat, segsize=circum)
+    if name == 'make_elt_aperture':
+        elt_outer_diameter = 39.14634
+        spider_width = 0.4
+        segment_size = 1.45
+        segment_gap = 0.004
+        inner_diameter = 9.4136
+        outer_diameter = 39.14634
+        if normalized:
+            segment_size /= elt_outer_diameter
+            segment_gap /= elt_outer_diameter
+            inner_diameter /= elt_outer_diameter
+            outer_diameter /= elt_outer_diameter
+            spider_width /= elt_outer_diameter
+        lim = (outer_diameter / 2) * 0.99
+        strips = [0.0, 1.0, lim, np.cos(np.pi / 6), np.sin(np.pi / 6), lim, np.cos(np.pi / 6), -np.sin(np.pi / 6), lim]
+        sp = [([0, 0], 60 * i + 30) for i in range(6)] if with_spiders else []
+        return dict(rings=17, pitch=segment_size * np.sqrt(3) / 2 + segment_gap,
+                    sels=[['cpos'] + _hexagon_toks(inner_diameter * 2 / np.sqrt(3), 0), ['strips', rat_list(strips)]],
+                    segment=_hexagon_toks(segment_size, np.pi / 2), obs=None, spiders=sp, hw=spider_width / 2, loop=True,
+                    D=outer_diameter, gap=segment_gap, segsize=segment_size)
+    if name == 'make_tmt_aperture':
+        tmt_outer_diameter = 30.0
+        spider_width = 0.22
+        segment_size = 1.44
+        segment_gap = 0.0025
+        inner_diameter = 2.5 * segment_size
+        central_obscuration = 3.636
+        if normalized:
+            spider_width /= tmt_outer_diameter
+            segment_size /= tmt_outer_diameter
+            segment_gap /= tmt_outer_diameter
+            inner_diameter /= tmt_outer_diameter
+            central_obscuration /= tmt_outer_diameter
+            tmt_outer_diameter = 1.0
+        sp = [([0, 0], 60 * i + 30) for i in range(6)] if with_spiders else []
+        return dict(rings=13, pitch=segment_size * np.sqrt(3) / 2 + segment_gap,
+                    sels=[['cpos'] + _hexagon_toks(inner_diameter * 2 / np.sqrt(3), 0), ['pos', 'disk', rat(0.98 * tmt_outer_diameter / 2)]],
+                    segment=_hexagon_toks(segment_size, np.pi / 2), obs=central_obscuration / 2, spiders=sp, hw=spider_width / 2, loop=True,
+                    D=tmt_outer_diameter, gap=segment_gap, segsize=segment_size)
+    if name == 'make_hicat_aperture':
+        gamma_21 = 0.423
+        gamma_31 = 1.008
+        p2_size = 1.4e-3
+        p2_side = p2_size / 2
+        p2_gap = 12e-6
+        p2_dist = p2_side * np.sqrt(3)
+        p2_circum = (2 * p2_side) - (2 / np.sqrt(3)) * p2_gap
+        p3_size = 19.725e-3
+        p3_mask_gap = 0.090e-3
+        p3_irisao_gap = p2_gap * gamma_31 / gamma_21
+        p3_central = 3.950e-3
+        p3_spiders = 0.350e-3
+        p3_irisao_circum = p2_circum * gamma_31 / gamma_21
+        p3_dist = p2_dist * gamma_31 / gamma_21
+        p3_seg_circum = p3_irisao_circum + (-p3_mask_gap + p3_irisao_gap) * (2 / np.sqrt(3))
+        if normalized:
+            p3_seg_circum /= p3_size
+            p3_dist /= p3_size
+            p3_central /= p3_size
+            p3_spiders /= p3_size
+            p3_size = 1
+        sp = [([0, 0], 60), ([0, 0], 120), ([0, 0], -60), ([0, 0], -120)] if with_spiders else []
+        return dict(hicat=True, pitchA=p3_dist, segA=_hexagon_toks(p3_seg_circum, np.pi / 2),
+                    pitchB=p3_size / 7, segB=_hexagon_toks(p3_size / 7 / np.sqrt(3) * 2, np.pi / 2),
+                    central=_hexagon_toks(p3_central, np.pi / 2), gaps=gaps, spiders=sp, hw=p3_spiders / 2, D=float(p3_size),
+                    gap=p3_mask_gap * (1.0 / 19.725e-3 if normalized else 1.0), segsize=p3_seg_circum, rings=3, pitch=p3_dist,
+                    centralsize=p3_central)
+    raise MachineryError('hexpupil_cfg: %r' % (name,))
+
+
+def _spider_flat(sp):
+    out = []
+    for p, deg in sp:
+        a = np.radians(deg)
+        out += [float(p[0]), float(p[1]), np.cos(a), np.sin(a)]
+    return rat_list(out)
+
+
+def hexpupil_tokens(cfg, trs_tok):
+    """-> the tokens after `<segment|->` of `C12 hexpupil` resp. `C12 hicat`"""
+    if cfg.get('hicat'):
+        return ' '.join(['1' if cfg['gaps'] else '0', rat(cfg['hw']), _spider_flat(cfg['spiders']), rat(cfg['pitchA']),
+                         rat(cfg['pitchA'] * np.sqrt(3) / 4), rat(cfg['pitchB']), rat(cfg['pitchB'] * np.sqrt(3) / 4)]
+                        + cfg['segA'] + cfg['segB'] + cfg['central'])
+    sels = []
+    for t in cfg['sels']:
+        sels += t
+    return ' '.join([str(cfg['rings']), rat(cfg['pitch']), rat(cfg['pitch'] * np.sqrt(3) / 4), '1' if cfg['loop'] else '0', rat(cfg['hw']),
+                     '-' if cfg['obs'] is None else rat(cfg['obs']), _spider_flat(cfg['spiders']), trs_tok, str(len(cfg['sels']))]
+                    + sels + cfg['segment'])
+
+
+def spy_positions(name, kw_real):
+    """call the real maker with make_segmented_aperture wrapped so that the segment positions it is handed are observed
+    -> (what the maker returned, [positions array (n, 2) per make_segmented_aperture call])"""
+    import hcipy.aperture.realistic as rl
+    seen = []
+    orig = rl.make_segmented_aperture
+
+    def wrapped(segment_shape, segment_positions, *a, **k):
+        try:
+            seen.append(np.array(segment_positions.points, float).reshape(-1, 2))
+        except Exception:                                       # noqa  (observation fault: reported by the caller as a disagreement)
+            seen.append(None)
+        return orig(segment_shape, segment_positions, *a, **k)
+    rl.make_segmented_aperture = wrapped
+    try:
+        with warnings.catch_warnings():
+            warnings.simplefilter('ignore')
+            made = getattr(rl, name)(**kw_real)
+    finally:
+        rl.make_segmented_aperture = orig
+    return made, seen
+
+
+def hexpupil_features(cfg, kept):
+    """points worth zooming in on: [(centre, width, label)]: dropped lattice sites next to kept segments, the gap between two kept
+    neighbours, the obscuration rim, points on every spider, the pupil's outer corner segments"""
+    import hcipy
+    lat = np.array(hcipy.make_hexagonal_grid(cfg['pitch'], cfg['rings']).points, float).reshape(-1, 2)
+    feats = []
+    pitch, size = cfg['pitch'], cfg['segsize']
+    if kept is not None and len(kept):
+        d = np.sqrt(((lat[:, None, :] - kept[None, :, :]) ** 2).sum(-1))
+        dmin = d.min(axis=1)
+        dropped = np.flatnonzero((dmin > 0.5 * pitch) & (dmin < 1.2 * pitch))
+        # a few dropped sites that touch the kept region: innermost and outermost ones
+        rad = np.hypot(lat[dropped, 0], lat[dropped, 1])
+        order = dropped[np.argsort(rad)]
+        for i in list(order[:2]) + list(order[-3:]):
+            feats.append(([float(lat[i, 0]), float(lat[i, 1])], size, 'dropped-site'))
+        rk = np.hypot(kept[:, 0], kept[:, 1])
+        for i in (int(np.argmax(rk)), int(np.argmin(rk))):
+            feats.append(([float(kept[i, 0]), float(kept[i, 1])], size, 'kept-extreme'))
+        # the gap between two kept neighbours
+        dk = np.sqrt(((kept[:, None, :] - kept[None, :, :]) ** 2).sum(-1))
+        ii, jj = np.nonzero((dk > 0.5 * pitch) & (dk < 1.2 * pitch))
+        if len(ii):
+            k = len(ii) // 3
+            m = (kept[ii[k]] + kept[jj[k]]) / 2
+            feats.append(([float(m[0]), float(m[1])], max(4 * cfg['gap'], size / 16), 'gap'))
+    if cfg.get('obs') is not None:
+        # the obscuration's rim towards the innermost kept segments (the ones it cuts), else a fixed direction
+        dirs = [(0.6, 0.8)]
+        if kept is not None and len(kept):
+            near0 = np.argsort(np.hypot(kept[:, 0], kept[:, 1]))[:6]
+            dirs = [(float(kept[i, 0] / np.hypot(*kept[i])), float(kept[i, 1] / np.hypot(*kept[i]))) for i in near0 if np.hypot(*kept[i]) > 0]
+        for ux, uy in dirs:
+            feats.append(([float(cfg['obs']) * ux, float(cfg['obs']) * uy], size / 2, 'obscuration-rim'))
+    if cfg.get('hicat'):
+        feats.append(([0.0, 0.0], cfg['centralsize'], 'central-segment'))
+        feats.append(([cfg['centralsize'] / 2 * 0.8, 0.0], cfg['centralsize'] / 8, 'central-segment-edge'))
+        feats.append(([cfg['D'] / 2 * 0.9, 0.0], size, 'contour'))
+    for p, deg in cfg['spiders']:
+        a = np.radians(deg)
+        for frac in (0.02, 0.3):
+            feats.append(([float(-p[0] + frac * cfg['D'] * np.cos(a)), float(-p[1] + frac * cfg['D'] * np.sin(a))], 4 * cfg['hw'], 'spider'))
+    return feats
+
+
+def run_hexpupil(ctx, name, kw, gseed, fam, feat=None):
+    """a hexagonally segmented telescope pupil against the model's own derivation (lattice, dropped segments, composition),
+    pupil and returned segments, on every representation; directed grids zoom in on the features"""
+    rng = np.random.default_rng(gseed)
+    short = name[len('make_'):-len('_aperture')]
+    label = 'pupil:' + short
+    case = {'kind': 'hexpupil', 'name': name, 'kw': kw, 'gseed': int(gseed), 'fam': fam, 'feat': feat}
+    cfg = hexpupil_cfg(name, kw)
+    kw_real = {k: v for k, v in kw.items() if k != 'transmissions'}
+    kw_real['return_segments'] = True
+    try:
+        made, seen = spy_positions(name, kw_real)
+    except Exception as e:                                      # noqa
+        ctx.violation('%s:maker-raises:%s' % (label, type(e).__name__), '%s(%r) raises %s' % (name, kw, type(e).__name__), case)
+        return [], (lambda out: None)
+    gen, segs = made[0], made[-1]
+    kept = seen[-1] if seen and seen[-1] is not None else None   # the positions of the segmented aperture whose segments are returned
+    if kept is None or len(kept) != len(segs):
+        ctx.disagree('C12 hexpupil observe', {'case': case, 'detail': 'could not observe the segment positions'}, key='hexpupil:%s:observe' % short)
+        kept = None
+    trs = None
+    if kw.get('transmissions') and not cfg.get('hicat'):
+        trs = np.round(rng.uniform(0, 1, len(segs)) * 16) / 16
+        kw_real['segment_transmissions'] = trs
+        try:
+            made, _ = spy_positions(name, kw_real)
+        except Exception as e:                                  # noqa
+            ctx.violation('%s:maker-raises:%s' % (label, type(e).__name__), '%s(%r) raises %s' % (name, kw, type(e).__name__), case)
+            return [], (lambda out: None)
+        gen, segs = made[0], made[-1]
+    trs_tok = rat_list(trs) if trs is not None else 's:1'
+    D = cfg['D']
+    feats = hexpupil_features(cfg, kept)
+    crossing = None
+    if feat is not None and feat[0] == 'spider-crossings':
+        # directed: EVERY spider is crossed twice by a row of 5 points (offsets -3, -1/2, 0, 1/2, 3 half widths) at random
+        # distances from its start point; an explicit unstructured point set
+        if not cfg['spiders']:
+            return [], (lambda out: None)
+        px, py, crossing = [], [], []
+        for sp_p, deg in cfg['spiders']:
+            a = np.radians(deg)
+            for _ in range(2):
+                t = float(rng.uniform(0.15, 0.42)) * D
+                cx, cy = -sp_p[0] + t * np.cos(a), -sp_p[1] + t * np.sin(a)
+                crossing.append((cx, cy))
+                for o in (-3.0, -0.5, 0.0, 0.5, 3.0):
+                    px.append(float(cx - o * cfg['hw'] * np.sin(a)))
+                    py.append(float(cy + o * cfg['hw'] * np.cos(a)))
+        ctx.count('hexpupil-grid:feature:spider-crossings')
+        c, half = [0.0, 0.0], D / 2
+    elif feat is not None:
+        # directed: [label, k, fine] = the k-th feature with that label; a small grid around it, pixels of the order of the feature
+        sel = [f for f in feats if f[2] == feat[0]]
+        if not sel:
+            return [], (lambda out: None)
+        c, w, flabel = sel[feat[1] % len(sel)]
+        half = 1.5 * w / (4 if feat[2] else 1)
+        ctx.count('hexpupil-grid:feature:' + flabel)
+    elif rng.random() < 0.5 and not fam.startswith('polar'):
+        c, w, flabel = feats[int(rng.integers(0, len(feats)))]
+        half = w * 10 ** float(rng.uniform(-0.5, 0.7))
+        ctx.count('hexpupil-grid:zoomed:' + flabel)
+    else:
+        c = [0.0, 0.0]
+        half = 0.55 * D * float(rng.uniform(0.3, 1.1))
+        ctx.count('hexpupil-grid:whole')
+    heavy = name in HEAVY
+    if crossing is not None:
+        gspec = ['pts', px, py]
+    else:
+        gspec = gen_grid_family(rng, fam, nmax=(5 if feat is not None else 6) if heavy else 7, half=half, centre=(c[0], c[1]), exact=False)
+    case['grid'] = gspec
+    reps, xs, ys, sep = make_reps(gspec)
+    scale = scale_of(xs, ys, D)
+    tol = rat(REL_TOL * scale)
+    allowed = {0.0, 1.0} | (set(float(t) for t in trs) if trs is not None else set())
+    # which of the returned segments: the one nearest to the grid's centre and a random one
+    pick = []
+    if kept is not None and len(kept):
+        pick = sorted({int(np.argmin(np.hypot(kept[:, 0] - np.mean(xs), kept[:, 1] - np.mean(ys)))), int(rng.integers(0, len(kept)))})
+        if crossing is not None:
+            # the segments the spiders cut: nearest to two of the crossing points
+            pick = sorted({int(np.argmin(np.hypot(kept[:, 0] - crossing[j][0], kept[:, 1] - crossing[j][1])))
+                           for j in rng.choice(len(crossing), 2, replace=False)})
+    case['segments'] = pick
+    rest = hexpupil_tokens(cfg, trs_tok)
+    op = 'hicat' if cfg.get('hicat') else 'hexpupil'
+    targets = [('-', label, gen)] + [(str(i), label + ':segment', segs[i]) for i in pick]
+    lines = []
+    results = {}
+    for segtok, lab, g in targets:
+        res, fails = oracle(ctx, lab, g, reps, xs, ys, scale, allowed, True)
+        results[segtok] = res
+        for key, what in fails:
+            ctx.violation(key, what + ' [%r]' % (kw,), case)
+        nz = [v for v in res.values() if v is not None]
+        mixed = bool(nz) and 0 < np.count_nonzero(nz[0]) < len(xs)
+        ctx.case(None, ('hexpupil', short, segtok != '-', tuple(sorted(kw.items())), fam, len(xs), int(np.count_nonzero(nz[0]))) if mixed else None)
+        ctx.count('hexpupil-field:' + ('mixed' if mixed else 'constant'))
+        if sep is not None:
+            lines.append((segtok, 'sep', 'C12 %s sep %s %s %s %s %s' % (op, tol, rat_list(sep[0]), rat_list(sep[1]), segtok, rest)))
+        lines.append((segtok, 'pts', 'C12 %s pts %s %s %s %s %s' % (op, tol, rat_list(xs), rat_list(ys), segtok, rest)))
+        # the polar code path of the model: on polar families, and for the (cheap) segments always
+        if reps.get('polar') is not None and (fam.startswith('polar') or segtok != '-' or crossing is not None):
+            lines.append((segtok, 'polar', polar_request(op, tol, reps['polar'], segtok + ' ' + rest)))
+    # pupil = union of the returned segments (unit transmissions: non-zero exactly where some segment is non-zero), on the real code,
+    # using the segments evaluated above plus, on small pupils, all of them
+    if trs is None and len(segs) <= 130 and feat is None:
+        g0 = reps.get('unstructured') or list(reps.values())[0]
+        try:
+            with warnings.catch_warnings():
+                warnings.simplefilter('ignore')
+                tot = np.zeros(len(xs))
+                for sg in segs:
+                    tot = np.maximum(tot, np.array(sg(g0), float))
+                pv = np.array(gen(g0), float)
+            bad = np.flatnonzero(np.abs(tot - pv) > 1e-12)
+            bad = [int(i) for i in bad if not on_boundary(gen, xs[i], ys[i], REL_TOL * scale)]
+            ctx.count('hexpupil-union-checks')
+            if bad:
+                i = bad[0]
+                ctx.violation('%s:union-of-segments' % label, '%s: at (%r, %r) the pupil is %r but the maximum over the returned segments is %r [%r]' % (
+                    label, float(xs[i]), float(ys[i]), float(pv[i]), float(tot[i]), kw), case)
+        except Exception as e:                                  # noqa
+            ctx.violation('%s:segments-raise:%s' % (label, type(e).__name__), '%s: evaluating the returned segments raises %s' % (label, type(e).__name__), case)
+    ctx.count('hexpupil-cases:' + short)
+    for f in grid_features(gspec, sep):
+        ctx.count('cover:%s(model)|%s' % (short, f))
+    # the kept segment centres themselves
+    poslines = []
+    if not cfg.get('hicat') and kept is not None:
+        sels = []
+        for t in cfg['sels']:
+            sels += t
+        poslines.append('C12 hexpos %d %s %s %d %s' % (cfg['rings'], rat(cfg['pitch']), rat(cfg['pitch'] * np.sqrt(3) / 4), len(cfg['sels']), ' '.join(sels)))
+
+    def check(out):
+        for (segtok, mode, req), resp in zip(lines, out):
+            what = 'segment' if segtok != '-' else 'pupil'
+            parts = resp.split(' ')
+            if parts[0] != 'ok':
+                ctx.disagree('C12 hexpupil ' + mode, {'case': case, 'which': segtok, 'model': resp[:80], 'impl-segments': len(segs)},
+                             key='hexpupil:%s:%s:model-refuses' % (short, what))
+                continue
+            mv, near = _rats(parts[1]), _bits(parts[2])
+            check_polar_slack(ctx, case, mode, parts)
+            if parts[3] != '1' and not (parts[3] == '-' and segtok == '-' and mode != 'polar'):
+                ctx.disagree('C12 model-self', {'case': case, 'detail': 'code-path model differs from point semantics', 'mode': mode})
+            names = (('regular', 'separated', 'separated-indep') if mode == 'sep' else ('polar', 'polar-separated') if mode == 'polar'
+                     else ('unstructured', 'unstructured-indep', 'polar', 'polar-separated'))
+            for nm in names:
+                rv = results[segtok].get(nm)
+                if rv is None:
+                    continue
+                ctx.traces_validated += 1
+                if len(mv) != len(rv):
+                    ctx.disagree('C12 hexpupil ' + mode, {'case': case, 'detail': 'length', 'model': len(mv), 'impl': len(rv)})
+                    continue
+                for i in range(len(rv)):
+                    if near[i]:
+                        ctx.boundary_skipped += 1
+                        ctx.count('model-boundary-skipped')
+                        ctx.count('boundary-skipped:hexpupil')
+                        continue
+                    ctx.count('points-compared')
+                    ctx.count('hexpupil-points-compared')
+                    if abs(mv[i] - rv[i]) > 1e-9:
+                        ctx.disagree('C12 hexpupil ' + mode, {'case': case, 'which': segtok, 'rep': nm, 'index': i, 'point': [float(xs[i]), float(ys[i])],
+                                                              'model': mv[i], 'impl': float(rv[i])},
+                                     key='hexpupil:%s:%s:model:%s' % (short, what, rep_class(nm)))
+                        break
+        for resp in out[len(lines):]:
+            ctx.traces_validated += 1
+            parts = resp.split(' ')
+            mp = np.array(_rats(parts[1]) if parts[0] == 'ok' and len(parts) > 1 else [], float).reshape(-1, 2)
+            ctx.count('hexpupil-positions-compared')
+            if mp.shape != kept.shape or np.abs(mp - kept).max(initial=0.0) > 1e-9 * D:
+                ctx.disagree('C12 hexpos', {'case': case, 'model-count': int(len(mp)), 'impl-count': int(len(kept)),
+                                            'first-difference': next(([float(a[0]), float(a[1])], [float(b[0]), float(b[1])])
+                                                                     for a, b in zip(list(mp) + [[np.nan, np.nan]], list(kept) + [[np.nan, np.nan]])
+                                                                     if not np.allclose(a, b, atol=1e-9 * D)) if len(mp) or len(kept) else None},
+                             key='hexpupil:%s:positions' % short)
+    return [l for _, _, l in lines] + poslines, check
+
+
+HEXMODEL_FEATURES = {
+    'make_luvoir_a_aperture': ('dropped-site', 'kept-extreme', 'gap', 'spider', 'spider-crossings'),
+    'make_luvoir_b_aperture': ('dropped-site', 'kept-extreme', 'gap'),
+    'make_elt_aperture': ('dropped-site', 'kept-extreme', 'gap', 'spider', 'spider-crossings'),
+    'make_tmt_aperture': ('dropped-site', 'kept-extreme', 'gap', 'spider', 'spider-crossings', 'obscuration-rim'),
+    'make_hicat_aperture': ('kept-extreme', 'gap', 'spider', 'spider-crossings', 'central-segment', 'central-segment-edge', 'contour'),
+}
+
+HEXMODEL_CONFIGS = {
+    'make_luvoir_a_aperture': [{}, {'normalized': True}, {'with_spiders': False}, {'with_segment_gaps': False}, {'gap_padding': 5},
+                               {'transmissions': True}, {'normalized': True, 'with_spiders': False, 'gap_padding': 10, 'transmissions': True}],
+    'make_luvoir_b_aperture': [{}, {'normalized': True}, {'with_segment_gaps': False}, {'gap_padding': 5}, {'transmissions': True, 'normalized': True}],
+    'make_elt_aperture': [{}, {'normalized': True, 'with_spiders': False}, {'transmissions': True}],
+    'make_tmt_aperture': [{}, {'normalized': True}, {'with_spiders': False}, {'transmissions': True, 'normalized': True}],
+    'make_hicat_aperture': [{}, {'normalized': True}, {'with_spiders': False}, {'with_segment_gaps': False},
+                            {'normalized': True, 'with_spiders': False, 'with_segment_gaps': False}],
+}
+
+
+# ---------------------------------------------------------------------------------------------
+# round 5: comparisons ON the decision boundary, where the decision is exactly representable (dyadic sizes/centres, axis-aligned:
+# every float operation of the maker is exact).  The model is asked with tolerance 0 (nothing is skipped); which side the model
+# (spiders only along +x: angle 0 has cos = 1, sin = 0 exactly; angle pi has sin = 1.2e-16.)  Which side the model
+# takes is proved: rect_boundary_closed, circle_boundary_closed, spider_boundary_blocked, spider_infinite_boundary_blocked.
+
+EXACT_BOUNDARY_SHAPES = [
+    ['rect', [1.5, 1.0], [0.25, -0.5]], ['rect', 1.25, None], ['rect', [0.0, 1.0], [0.5, 0.0]],
+    ['circle', 1.25, None], ['circle', 1.25, [0.5, 0.25]], ['circle', 0.0, [0.25, 0.25]],
+    ['spider', [-1.0, 0.25], [1.0, 0.25], 0.5], ['spider', [-0.5, -0.5], [1.0, -0.5], 0.25],
+    ['spiderinf', [0.25, -0.5], 0.0, 0.5], ['spiderinf', [0.0, 0.0], 0.0, 0.25],
+    ['shifted', ['rect', [1.5, 1.0], None], [0.5, -0.25]], ['obstruction', ['rect', [1.0, 0.75], [0.125, 0.125]]],
+    ['obstruction', ['circle', 1.25, [0.5, 0.25]]], ['shifted', ['circle', 1.25, None], [-0.375, 0.5]],
+    ['segmented', ['rect', [0.5, 0.25], None], [[-0.5, 0.0], [0.0, 0.0], [0.5, 0.25]], [0.5, 1.0, 0.25]],
+    ['segmented', ['circle', 0.625, None], [[-0.625, 0.0], [0.0, 0.0]], 1.0],
+]
+EXACT_BOUNDARY_GRIDS = [['regular', [25, 25], [0.125, 0.125], [-1.5, -1.5]],
+                        ['regular', [13, 9], [-0.25, 0.125], [1.5, -0.5]],
+                        ['sep', [0.625, -0.5, 1.0, 0.0, -0.25, 0.375, 0.875, -1.0], [0.5, 0.0, -1.0, 0.25, 0.75, -0.25, 0.625]]]
+
+
+def run_exact_boundary(ctx):
+    lines, meta = [], []
+    tiny = rat(2.0 ** -30)
+    for sspec in EXACT_BOUNDARY_SHAPES:
+        gen, toks, size, binary = build(sspec)
+        label = top_kind(sspec)
+        for gspec in EXACT_BOUNDARY_GRIDS:
+            reps, xs, ys, sep = make_reps(gspec)
+            case = {'grid': gspec, 'shape': sspec}
+            res = {}
+            for nm in ('regular', 'separated', 'unstructured'):
+                if reps.get(nm) is None:
+                    continue
+                vals, err, attached = evaluate(gen, reps[nm])
+                if err is not None:
+                    ctx.violation('%s:raises:%s:%s' % (label, rep_class(nm), err), '%s raises %s on a %s grid' % (label, err, nm), case)
+                    continue
+                res[nm] = vals
+            # the property ON the boundary: every operation is exact here, so no point is forgiven
+            names = list(res)
+            for nm in names[1:]:
+                d = np.flatnonzero(res[nm] != res[names[0]])
+                if len(d):
+                    i = int(d[0])
+                    ctx.violation('%s:differs-on-boundary:%s' % (label, rep_class(nm)),
+                                  '%s: at the point (%r, %r) (exactly representable decision) the value is %r on the %s grid but %r on the %s grid' % (
+                                      label, float(xs[i]), float(ys[i]), float(res[names[0]][i]), names[0], float(res[nm][i]), nm), case)
+            ctx.count('exact-boundary-cases')
+            for mode in ('sep', 'pts'):
+                a, b = (sep[0], sep[1]) if mode == 'sep' else (xs, ys)
+                for tol in ('0', tiny):
+                    lines.append('C12 eval %s %s %s %s %s' % (mode, tol, rat_list(a), rat_list(b), ' '.join(toks)))
+                meta.append((mode, label, case, res, xs, ys))
+    out = ctx.model(lines)
+    for k, (mode, label, case, res, xs, ys) in enumerate(meta):
+        p0, p1 = out[2 * k].split(' '), out[2 * k + 1].split(' ')
+        if p0[0] != 'ok' or p1[0] != 'ok':
+            ctx.disagree('C12 exact-boundary ' + mode, {'case': case, 'model': out[2 * k][:80]})
+            continue
+        mv, skipped, onb = _rats(p0[1]), _bits(p0[2]), _bits(p1[2])
+        if any(skipped):
+            ctx.disagree('C12 exact-boundary ' + mode, {'case': case, 'detail': 'tolerance 0 still flags a point'})
+        for nm in (('regular', 'separated') if mode == 'sep' else ('unstructured',)):
+            rv = res.get(nm)
+            if rv is None:
+                continue
+            ctx.traces_validated += 1
+            for i in range(len(rv)):
+                ctx.count('points-compared')
+                if onb[i]:
+                    ctx.count('points-compared-on-boundary')
+                    ctx.count('on-boundary-by-maker:' + label)
+                if i >= len(mv) or abs(mv[i] - rv[i]) > 0:
+                    ctx.disagree('C12 exact-boundary ' + mode, {'case': case, 'rep': nm, 'index': i, 'point': [float(xs[i]), float(ys[i])],
+                                                                  'on-boundary': bool(onb[i]), 'model': mv[i] if i < len(mv) else None, 'impl': float(rv[i])},
+                                 key='%s:on-boundary:model:%s' % (label, nm))
+                    break
+    if not ctx.dist.get('points-compared-on-boundary'):
+        raise MachineryError('the exact-boundary corpus has no point on a boundary')
+
+
+# ---------------------------------------------------------------------------------------------
 # evaluate_supersampled: where it is defined, and which exception otherwise (model: supersampled_defined_iff)
 
 SUPER_ERROR_CASES = [
@@ -1925,7 +2441,12 @@ def run(ctx):
                 'transmission, field attached to the grid, evaluate_supersampled in [0,1] and equal on regular/separated. '
                 'Correspondence: Lean model of both code paths, point by point, skipping points the model flags as within '
                 '1e-7*scale of a decision (counted in boundary_skipped). Telescope pupils: every maker of realistic.py with '
-                'every combination of its boolean flags (+ telescope variants, random transmissions, gap padding), oracle only. '
+                'every combination of its boolean flags (+ telescope variants, random transmissions, gap padding), oracle only; '
+                'Keck, VLT (+quadrants), LUVOIR A/B, ELT, TMT, HiCAT (+returned segments) also against the model, which derives the '
+                'segment lattice, the dropped segments, obscuration and spiders itself (segment centres observed on the real maker), '
+                'on directed zooms at dropped sites / gaps / rims / spider crossings; Magellan, Hale, HabEx, HST as recipes. '
+                'Exactly representable boundaries (dyadic axis-aligned rectangles, circles, spiders) are compared ON the boundary '
+                'with tolerance 0. '
                 'Non-trivial = the field is neither all zero nor all non-zero; distinct by (maker, grid kind, #points, #non-zero).')
     ctx.assumptions += ['matplotlib Path.contains_points implements the even-odd crossing rule away from the boundary',
                         'cos/sin/apothem constants are recomputed by the harness with the NumPy expressions of the maker closures',
@@ -2002,11 +2523,44 @@ def run(ctx):
                 l, chk = run_recipe(ctx, name, kw, int(ctx.rng.integers(0, 2 ** 31)), fam)
                 checks.append((len(lines), len(l), chk))
                 lines += l
+    # round 5: the hexagonally segmented pupils with the parameter derivation inside the model; directed feature zooms first
+    for name in HEXMODEL_PUPILS:
+        cfgs5 = HEXMODEL_CONFIGS[name]
+        for li, flabel in enumerate(HEXMODEL_FEATURES[name]):
+            if flabel == 'spider' and ctx.quick():
+                continue            # quick tier: 'spider-crossings' visits every spider in one case
+            for k in ([int(ctx.rng.integers(0, 5))] if ctx.quick() else range(2 if name in HEAVY else 3)):
+                for fine in ([bool(ctx.rng.integers(0, 2))] if ctx.quick() or flabel == 'spider-crossings' else (False, True)):
+                    kw = cfgs5[int(ctx.rng.integers(0, len(cfgs5)))]
+                    if flabel.startswith('spider') and kw.get('with_spiders') is False:
+                        kw = cfgs5[0]
+                    fam = 'regular' if (li + k) % 2 == 0 else str(ctx.rng.choice(['sep-asc', 'sep-desc', 'sep-permuted', 'regular-reversed', 'regular-scaled-1']))
+                    if flabel == 'spider-crossings':
+                        fam = 'pts'
+                    if flabel == 'obscuration-rim' and ctx.quick():
+                        # the returned segments are wrapped differently with and without spiders: both branches in every run
+                        for kw2 in (cfgs5[0], cfgs5[2]):
+                            l, chk = run_hexpupil(ctx, name, kw2, int(ctx.rng.integers(0, 2 ** 31)), fam, feat=[flabel, k, False])
+                            checks.append((len(lines), len(l), chk))
+                            lines += l
+                        continue
+                    l, chk = run_hexpupil(ctx, name, kw, int(ctx.rng.integers(0, 2 ** 31)), fam, feat=[flabel, k, fine])
+                    checks.append((len(lines), len(l), chk))
+                    lines += l
+        for _ in range(ctx.scale(1, 1 if name in HEAVY else 2)):
+            fams = ([str(f) for f in ctx.rng.choice(FAMILIES, 1 if name in HEAVY else 2, replace=False)] if ctx.quick()
+                    else [f for f in FAMILIES if name not in HEAVY or ctx.rng.random() < 0.5])
+            for fam in fams:
+                kw = cfgs5[int(ctx.rng.integers(0, len(cfgs5)))]
+                l, chk = run_hexpupil(ctx, name, kw, int(ctx.rng.integers(0, 2 ** 31)), fam)
+                checks.append((len(lines), len(l), chk))
+                lines += l
     check_hexqr(ctx)
     run_super_errors(ctx)
     run_super_stats(ctx)
     run_super_lists(ctx)
     run_negative_diameter(ctx)
+    run_exact_boundary(ctx)
     out = ctx.model(lines)
     for base, cnt, chk in checks:
         chk(out[base:base + cnt])
@@ -2034,6 +2588,16 @@ def run(ctx):
                 kw = {'with_spiders': bool(ctx.rng.random() < 0.5)} if name != 'make_luvoir_b_aperture' else {}
                 run_pupil(ctx, name, kw, int(ctx.rng.integers(0, 2 ** 31)), None, fam)
     ctx.extra['pupil_configurations'] = len(cfgs)
+    frac = {}
+    for k, v in ctx.dist.items():
+        if k.startswith('skipped-by-maker:') or k.startswith('compared-by-maker:'):
+            kind, mk = k.split(':', 1)
+            frac.setdefault(mk, {'skipped': 0, 'compared': 0})[kind.split('-')[0]] += v
+    frac['hexpupil(model)'] = {'skipped': ctx.dist.get('boundary-skipped:hexpupil', 0), 'compared': ctx.dist.get('hexpupil-points-compared', 0)}
+    for mk, d in frac.items():
+        d['skipped_fraction'] = round(d['skipped'] / max(1, d['skipped'] + d['compared']), 5)
+    ctx.extra['boundary_skipped_by_maker'] = frac
+    ctx.extra['compared_on_boundary'] = {k.split(':', 1)[1]: v for k, v in ctx.dist.items() if k.startswith('on-boundary-by-maker:')}
     ctx.extra['axis_distribution'] = {k[5:]: v for k, v in sorted(ctx.dist.items()) if k.startswith('axes:')}
     cover = {}
     for k, v in ctx.dist.items():
@@ -2089,6 +2653,8 @@ def replay(ctx, case):
         run_keck(ctx, case['kw'], case['gseed'], case['fam'])
     elif case.get('kind') == 'vlt':
         run_vlt(ctx, case['kw'], case['gseed'], case['fam'], case.get('nseg', 2))
+    elif case.get('kind') == 'hexpupil':
+        run_hexpupil(ctx, case['name'], case['kw'], case['gseed'], case['fam'], case.get('feat'))   # oracle part; the model part needs the driver
     elif case.get('kind') == 'recipe':
         run_recipe(ctx, case['name'], case['kw'], case['gseed'], case['fam'], case.get('feat'))
     elif case.get('kind') == 'super-list':
